@@ -85,6 +85,18 @@ TypePairs ==
     \cup {TypeEncCase("CoseAny", CoseOfKind(k), "cose-kind") : k \in CoseKinds}
     \cup {TypeEncCase("AttStmt", st, "attstmt") : st \in {StmtNone, StmtPacked, StmtX5c}}
 
-MC_Cases == GetInfoCases \cup McCases \cup GaCases \cup CpCases \cup CmCases \cup LbCases \cup BodylessCases
+\* every boolean member with both values (an omitted `false` is not the same as `false`)
+BoolCases ==
+    {RespCase("MakeCredential", [McRespMin EXCEPT !.epAtt = <<b>>], BIG, "bool") : b \in BOOLEAN}
+    \cup {RespCase("GetAssertion", [GaRespMin EXCEPT !.epAtt = <<b>>, !.userSelected = <<c>>], BIG, "bool") : b, c \in BOOLEAN}
+    \cup {RespCase("ClientPin", [CpRespMin EXCEPT !.powerCycleState = <<b>>], BIG, "bool") : b \in BOOLEAN}
+    \cup {RespCase("GetInfo", [GiMin EXCEPT !.options = <<[GiOptMin EXCEPT ![k] = <<b>>]>>], BIG, "bool") :
+             k \in DOMAIN GiOptOptVals(F), b \in BOOLEAN}
+    \cup {RespCase("GetInfo", [GiMin EXCEPT !.options = <<[GiOptMin EXCEPT !.rk = b, !.up = c]>>], BIG, "bool") : b, c \in BOOLEAN}
+    \cup (IF GIF \in F THEN {RespCase("GetInfo", [GiMin EXCEPT !.forcePINChange = <<b>>, !.longTouchForReset = <<c>>], BIG, "bool") : b, c \in BOOLEAN} ELSE {})
+    \cup (IF TPP \in F THEN {RespCase("CredentialManagement", [CmRespMin EXCEPT !.thirdPartyPayment = <<b>>], BIG, "bool") : b \in BOOLEAN} ELSE {})
+    \cup {TypeEncCase("McExt", [McExtMin EXCEPT !.hmacSecret = <<b>>, !.largeBlobKey = <<c>>], "bool") : b, c \in BOOLEAN}
+
+MC_Cases == BoolCases \cup GetInfoCases \cup McCases \cup GaCases \cup CpCases \cup CmCases \cup LbCases \cup BodylessCases
             \cup LatticeCases \cup TypePairs
 =============================================================================
